@@ -9,6 +9,7 @@ mod huff;
 mod ic;
 mod interp;
 mod judge;
+mod mg;
 mod slot;
 mod stack;
 mod util;
@@ -59,20 +60,24 @@ fn main() {
             if arg(&args, "--mode").as_deref() == Some("cmp") {
                 huff::cmd_gen_cmp(seed, count, &out, &ty);
             } else {
-                huff::cmd_gen(seed, count, &out, &ty);
+                huff::cmd_gen(seed, count, &out, &ty, args.iter().any(|a| a == "--small"));
             }
         }
         "dict-run" => {
             let file = args.get(2).expect("scenario file");
             let out = arg(&args, "--out").expect("--out");
             let n = arg(&args, "--nslots").and_then(|x| x.parse().ok()).unwrap_or(2);
-            dict::cmd_run(file, &out, n);
+            dict::cmd_run(file, &out, n, args.iter().any(|a| a == "--as-str"));
         }
         "dict-gen" => {
             let seed = arg(&args, "--seed").and_then(|x| x.parse().ok()).unwrap_or(1);
             let count = arg(&args, "--count").and_then(|x| x.parse().ok()).unwrap_or(100);
             let out = arg(&args, "--out").expect("--out");
-            dict::cmd_gen(seed, count, &out);
+            if args.iter().any(|a| a == "--utf8") {
+                dict::cmd_gen_utf8(seed, count, &out);
+            } else {
+                dict::cmd_gen(seed, count, &out);
+            }
         }
         "alloc-run" => {
             let seed = arg(&args, "--seed").and_then(|x| x.parse().ok()).unwrap_or(1);
@@ -89,6 +94,12 @@ fn main() {
             let out = arg(&args, "--out").expect("--out");
             let only = arg(&args, "--subjects").map(|s| s.split(',').map(|x| x.to_string()).collect());
             drive::cmd_drive(seed, runs, steps, long, &out, only);
+        }
+        "mg-run" => {
+            let seed = arg(&args, "--seed").and_then(|x| x.parse().ok()).unwrap_or(1);
+            let runs = arg(&args, "--runs").and_then(|x| x.parse().ok()).unwrap_or(100);
+            let out = arg(&args, "--out").expect("--out");
+            mg::cmd_run(seed, runs, &out);
         }
         "catalogue" => println!("{}", serde_json::to_string_pretty(&catalogue::catalogue_json()).unwrap()),
         "profile" => println!("{}", util::profile_name()),
